@@ -1296,6 +1296,13 @@ def _run_nested(case, det, pipe, before, bad):
     if exc is not None:
         bad("valid-refused", f"{via} of the valid key {key}={new!r} raised {type(exc).__name__}: {str(exc)[:200]}", via=via)
         return ["valid-refused", type(exc).__name__]
+    if via in ("replace", "sweep"):
+        # the assignment is made on a COPY (Processor.replace / the per-run processor of an observation): the caller's
+        # configuration - also the inside of its dictionary-valued arguments - keeps what it held
+        d = snapshot.diff(before, snapshot.snapshot([det, pipe]), ignore=("_numbytes", "_func"))
+        if d:
+            bad("caller-changed", f"{via} of {key}={new!r} (made on a copy) changed the caller's objects: {snapshot.fmt(d, 3)}",
+                via=via)
     seen = _seen_arguments(trace)
     if key.endswith(".enabled"):
         if "p1" in seen:
